@@ -161,6 +161,7 @@ class Facts:
         self.adts = {a["def"]: a for a in raw["adts"]}
         from . import thirlib
         thirlib.register_adts(self.adts)
+        thirlib.BODIES = self.thir
         from . import alpha
         self.renamed = alpha.canonicalise(self)
 
